@@ -705,16 +705,18 @@ theorem relAfter_append (b : Bool) (xs ys : List BAct) : relAfter b (xs ++ ys) =
 
 @[simp] theorem relAfter_flush (b : Bool) : relAfter b [.flush] = true := rfl
 
-theorem pollOnce_pins (e : BEnv) : (pollOnce e).2.ctl = e.ctl ∧ (pollOnce e).2.cs = e.cs ∧ (pollOnce e).2.dc = e.dc := by
-  unfold pollOnce; split <;> exact ⟨rfl, rfl, rfl⟩
+theorem pollOnce_pins (e : BEnv) (pin : Nat) : (pollOnce e pin).2.ctl = e.ctl ∧ (pollOnce e pin).2.cs = e.cs ∧ (pollOnce e pin).2.dc = e.dc := by
+  unfold pollOnce; split
+  · exact ⟨rfl, rfl, rfl⟩
+  · split <;> exact ⟨rfl, rfl, rfl⟩
 
 theorem busyChips_pins (e : BEnv) : (busyChips e).2.2.ctl = e.ctl ∧ (busyChips e).2.2.cs = e.cs ∧ (busyChips e).2.2.dc = e.dc := by
   unfold busyChips
   simp only
-  have h1 := pollOnce_pins e
-  have h2 := pollOnce_pins (pollOnce e).2
-  have h3 := pollOnce_pins (pollOnce (pollOnce e).2).2
-  have h4 := pollOnce_pins (pollOnce (pollOnce (pollOnce e).2).2).2
+  have h1 := pollOnce_pins e 0
+  have h2 := pollOnce_pins (pollOnce e 0).2 1
+  have h3 := pollOnce_pins (pollOnce (pollOnce e 0).2 1).2 2
+  have h4 := pollOnce_pins (pollOnce (pollOnce (pollOnce e 0).2 1).2 2).2 3
   exact ⟨by rw [h4.1, h3.1, h2.1, h1.1], by rw [h4.2.1, h3.2.1, h2.2.1, h1.2.1], by rw [h4.2.2, h3.2.2, h2.2.2, h1.2.2]⟩
 
 theorem waitReady_pins : ∀ (fuel : Nat) (e : BEnv),
